@@ -24,7 +24,7 @@ COMPONENTS = dict(real='pytableaux.lang (lex.py incl. the construction cache, co
 CACHES = (1, 2, 3, 5, 8, 64, 1000)
 
 def plan(tier):
-    return dict(runs=8000 if tier == 'quick' else 160000, timeout=300 if tier == 'quick' else 3600)
+    return dict(runs=8000 if tier == 'quick' else 160000, timeout=900 if tier == 'quick' else 7200)
 
 def make_spec(ctx):
     rng = ctx.rng('workload')
